@@ -277,7 +277,7 @@ Proof.
     - inversion Hd. eapply name_refs_incl. exact Hparsed.
     - destruct (v_type v).
       + inversion Hparsed. apply incl_nil_l.
-      + inversion Hparsed; subst. destruct (shape_refs _ _ _ _ _ _ Hvt Hd) as [Hv1 _]. exact Hv1. }
+      + inversion Hparsed; subst. cbn match in Hvt. destruct (shape_refs _ _ _ _ _ _ Hvt Hd) as [Hv1 _]. exact Hv1. }
   destruct (v_untagged v); [inversion H; subst; exact Hp|].
   destruct tg as [|t|t c|].
   - destruct (v_shape v) as [|fs|fs].
